@@ -1276,7 +1276,12 @@ f_sort_array (void)
     {
     case T_NUMBER:
       {
-        tmp = builtin_sort_array (copy_array (tmp), (int)arg[1].u.number);
+        /* The copy that is being sorted lives in a value stack slot: the comparison may raise an error (a mixed
+         * array, a callback that fails), and unwinding the stack must release the copy. */
+        STACK_CHECK (1);
+        push_refed_array (copy_array (tmp));
+        tmp = builtin_sort_array (sp->u.arr, (int)arg[1].u.number);
+        sp--;
         break;
       }
 
@@ -1297,9 +1302,12 @@ f_sort_array (void)
         sort_array_ftc = &ftc;
         process_efun_callback (1, &ftc, F_SORT_ARRAY);
 
-        tmp = copy_array (tmp);
+        STACK_CHECK (1);
+        push_refed_array (copy_array (tmp));	/* see above */
+        tmp = sp->u.arr;
         quickSort ((char *) tmp->item, tmp->size, sizeof (tmp->item),
                    sort_array_cmp);
+        sp--;
         sort_array_ftc = old_ptr;
         break;
       }
